@@ -37,14 +37,9 @@ CLAIMED = {
               "resolved unaudited) is reported as KNOWN-FINDING. The tree-level theorems assume `leafy` (Json/Slice/Function nodes have only raw leaves), true of get_tree output."),
         ref="DESIGN.md section 4 C11"),
     "C02": dict(
-        technique="Coq model purity (by construction) + observed inertness under audit hook with canary modules",
-        text=("The Gallina model of get_tree / the audit walk / walk_tree consists of total functions of (registry tables, member names, schema, T) whose result types carry no "
-              "event and which never call the model's name-resolution function; coq/props/C02.v records that (init_events = [] for every tree, after repairing D05). This part is "
-              "true by construction, so the assurance that the *code* is inert rests on the tie: on every run generated archives of every loader kind and protocol, whose name "
-              "slots mention fresh importable-but-not-imported canary modules, go through six inspection entry points of /repo under sys.addaudithook and wrapped "
-              "gettype/_import_obj/import_module, and the model's predicted verdicts/rows are compared with the implementation's."),
-        note=("Trusted: audit-hook and wrapper instrumentation, canary ledger; Coq kernel. zipfile opening the archive path itself is not an action on the archive's behalf. "
-              "A defect of this kind (LossNode importing while building, D05) was found and fixed in /repo."),
+        technique='Coq proof over a call graph + effect table TRANSLATED from the skops/io source on every run (static inertness of everything reachable before the verdict) + observed inertness under audit hook with canary modules + dynamic call edges validated against the translated graph',
+        text=("coq/props/C02.v: (1) C02_static_inert -- harness/callgraph.py re-translates the SOURCE of skops/io on every run into Gen/CallGraphGen.v: for every function its possible callees inside skops.io (over-approximated: methods by name, every constructor for a looked-up class, callbacks, properties, context managers) and the forbidden primitives it uses (resolve: gettype/_import_obj/importlib/__import__/eval/exec/pickle/computed getattr/sys.modules; fs: open/os/shutil/tempfile/subprocess/write methods); load and loads are split at their call of audit_tree. Theorem: every function reachable through any chain of calls from get_untrusted_types, visualize, or load/loads up to and including the audit uses none of them (closure certificate checked by vm_compute against the generic theorem static_inert: closed set containing the entries contains everything reachable); C02_static_not_blind: the same analysis does find a forbidden primitive behind the verdict; C02_static_entries. The translator is fail-closed (unknown external callee, construct before the audit, whichmodule called with a name that is not the object's own __name__ => abort => broken obligation). (2) C02_no_events_before_verdict over the hand-written get_tree model (by construction). Tie of the translator to the code: every call edge between skops.io functions observed under sys.setprofile during the inspection runs must be an edge of the translated graph. Tie of the behaviour: generated archives of every loader kind and protocol whose name slots mention fresh importable-but-not-imported canary modules go through six inspection entry points under sys.addaudithook and wrapped gettype/_import_obj/import_module; 48 MiB members; private TMPDIR."),
+        note=("Trusted: the translator's over-approximation rules and its tables of effectful primitives (harness/callgraph.py docstring), `reflect:` effects (whichmodule/_getattribute on a live object's own __name__) are permitted; audit-hook and wrapper instrumentation, canary ledger; Coq kernel. zipfile opening the archive path itself is not an action on the archive's behalf. D05 (LossNode importing while building) was found and fixed in /repo."),
         ref="DESIGN.md section 4 C02"),
     "C15": dict(
         technique="Coq proof over an executable model of _markup/_parser + model/implementation correspondence",
@@ -67,23 +62,23 @@ CLAIMED = {
         note="Trusted: as C09, plus PrettyTable as an oracle (Section variable) and newline handling of open(..., 'w').",
         ref='DESIGN.md section 4 C10'),
     "C14": dict(
-        technique='Coq proof over an executable model of the card section tree + model/implementation correspondence on random operation sequences',
-        text='coq/props/C14.v (18 theorems): what is handed to PrettyTable (header = column names, one cell per entry, LF -> <br />, no LF left); metrics in first-seen order with latest value after any call sequence; placement at the given path with the last path part as title for every builder (D16 repaired); default alt text = own title (D17 repaired); one call with several items = one-by-one. Correspondence-only: PrettyTable layout and get_params (oracles), dict vs DataFrame abstraction, batch vs one-by-one on the implementation.',
-        note='Trusted: as C09; PrettyTable/get_params oracles. Not covered: add_model_plot, add_permutation_importances, add_fairlearn_metric_frame.',
+        technique='Coq proof over an executable model of the card section tree and its content builders + model/implementation correspondence on random operation sequences',
+        text='coq/props/C14.v (31 theorems): what is handed to PrettyTable (header = column names, one cell per entry, LF -> <br />, no LF left); metrics in first-seen order with latest value after any call sequence; placement at the given path with the last path part as title for every builder incl. add_model_plot (D16 repaired); default alt text = own title (D17 repaired); one call with several items = one-by-one; headings = keys for every history without a direct .title assignment (refuted with one); add_model_plot: plain visible unfolded section, subsections kept, also after any history, content = description + blank line + processed HTML (None and "" falsy), where the model of re.sub(r"\\n\\s+", "", .) for EVERY string leaves no LF followed by whitespace, only drops whitespace (subsequence), is the identity iff no such pair exists and equals the leftmost/greedy formulation; str.count/str.replace leftmost and non-overlapping; the style attribute is added iff the class name is counted exactly once. Correspondence-only: PrettyTable layout, get_params and estimator_html_repr (oracles: generated adversarial HTML texts and the real sklearn HTML captured from the single call), the \\s set of re = is_space over all code points, dict vs DataFrame incl. typed numpy columns, batch vs one-by-one on the implementation.',
+        note='Trusted: as C09; PrettyTable / get_params / estimator_html_repr oracles. Open: D33 (pandas iteration changes float32/float16/datetime64/None cells). Not covered: add_permutation_importances, add_fairlearn_metric_frame.',
         ref='DESIGN.md section 4 C14'),
     "C16": dict(
         technique='Coq proof over an fs-operation model + audit-hook correspondence + crash injection',
-        text="coq/props/C16.v (12 theorems) about update_ops, the model of skops/cli/_update.py after repairing D22/D23: the write decision, inertness of every non-writing case, input untouched and destination in {old content, complete new content} at EVERY crash prefix of the operation list (any Append cut short; both filesystem placements), no residue on completion; refuted witnesses for the pre-fix code. That update_ops is the code is correspondence: the real file-operation sequence of main_cli observed by sys.addaudithook over protocol x output x inplace x TMPDIR placement, final directory state compared; crash injection (os._exit at every event boundary) is the search oracle. 'The written archive loads equal' is an oracle premise plus a harness check.",
+        text="coq/props/C16.v (13 theorems) about update_ops, the model of skops/cli/_update.py after repairing D22/D23: the write decision, inertness of every non-writing case, input untouched and destination in {old content, complete new content} at EVERY crash prefix of the operation list (any Append cut short; both filesystem placements), no residue on completion; refuted witnesses for the pre-fix code. That update_ops is the code is correspondence: the real file-operation sequence of main_cli observed by sys.addaudithook over protocol x output x inplace x TMPDIR placement, final directory state compared; crash injection (os._exit at every event boundary) is the search oracle. 'The written archive loads to an equal object' is a theorem on the C05 fragment (C16_result_loads_equal_partial: the file operations composed with the dump model, the zip container as read-back oracle and the codec round trip) and a harness check on every generated value.",
         note='Trusted: Fs.v semantics (POSIX rename atomicity), mkdtemp freshness, the audit-hook abstraction, zip digest modulo ids. Power loss / fsync ordering not modelled (process death only).',
         ref='DESIGN.md section 4 C16'),
     "C17": dict(
         technique='Coq proof over an event model (log + fs ops) + audit-hook/stderr correspondence',
-        text='coq/props/C17.v (13 theorems): default output path and PurePath.stem model, operation order (read pickle fully, dumps, only then open/write), failure inertness, warning emitted iff untrusted names exist with exactly those names. Equivalence of the loaded object is an oracle premise plus a structural-fingerprint check. Input-unchanged is partial: open finding D29 (pickle named <x>.skops in the cwd with no -o is overwritten).',
-        note='Trusted: pickle; audit-hook abstraction; logging capture. D29 open known finding.',
+        text='coq/props/C17.v (15 theorems): default output path and PurePath.stem model, operation order (read pickle fully, dumps, only then open/write), failure inertness, warning emitted iff untrusted names exist with exactly those names; the input is never altered at any crash point whatever the output option (C17_input_untouched, unconditional since D29 was repaired in /repo: convert refuses when the output is the input itself, C17_same_file_refused); equivalence of the loaded object is a theorem on the C05 fragment (C17_result_loads_equal_partial: composition with the dump model, the zip read-back oracle and the codec round trip), an oracle premise (C17_equiv) plus a structural-fingerprint check beyond it.',
+        note='Trusted: pickle; audit-hook abstraction; logging capture; zipfile as read-back oracle. D29 repaired in /repo.',
         ref='DESIGN.md section 4 C17'),
     "C18": dict(
         technique='Coq proof of sequencing + induction over one-hole contexts + exhaustive-position correspondence',
-        text='coq/props/C18.v (10 theorems): a failing serialisation means the sink sees no operation at all (existing path, new path, open file object), dumps never returns a prefix, and failure is independent of the position/depth of the unsupported element (induction over one-hole contexts with the leaf serialisers as oracle). That the real get_state has that strict shape is correspondence: every node position of generated structures x rotating bad-element kinds x 4 sinks under the audit hook.',
+        text='coq/props/C18.v (13 theorems): a failing serialisation means the sink sees no operation at all (existing path, new path, open file object), dumps never returns a prefix, and failure is independent of the position/depth of the unsupported element (induction over one-hole contexts with the leaf serialisers as oracle); and over the REAL dump model (CodecDump.get_state, all value kinds): a value that can never be serialised (unsupported type, raising __getstate__/__reduce__, property) sitting at ANY serialised position at any depth (list/tuple/set items, dict and defaultdict values, default factories, masked data/mask, RNG states, partial slots, operator attrs, bound-method owners, object state / reduce arguments) makes dumps_model raise, and then no target receives anything under any compression (C18_codec_inside_raises, C18_codec_unpersistable_touches_nothing). That the real get_state has that strict shape is correspondence: every node position of generated structures x rotating bad-element kinds x 4 sinks under the audit hook.',
         note='Trusted: audit-hook observation of the destination; the serializer itself is an oracle here (modelled under C04/C05).',
         ref='DESIGN.md section 4 C18'),
     "C13": dict(
@@ -130,20 +125,15 @@ CLAIMED = {
         technique="Coq model of the codec (pval, get_state, construct_val) with refuted-corruption theorems + schema/value correspondence",
         text=("coq/props/C04.v over an executable Gallina model of every *_get_state function and every _construct (PyVal/CodecDump/CodecLoad, reusing the get_tree model): "
               "C04_faithful_or_refuses_partial is a theorem on the C05 fragment (scalars, nested list/tuple/set, dict family, slices, names, operator getters; arbitrary sharing) under the decidable guard c04_ok; one refuted theorem (vm_compute witness) per "
-              "corruption class = open findings D08 (colliding keys), D09 (frozenset/deque payload), D10 (rank>=2 object arrays), D26 (property values), C04-F1..F4 (scalar / defaultdict / tuple subclasses, surrogate pairs); "
+              "corruption class = open findings D08 (colliding keys), D09 (frozenset/deque payload), D10 (rank>=2 object arrays), D26 (property values), C04-F1, F4 (scalar subclasses, surrogate pairs); "
               "C04_dump_pure holds by type. Everything else in the guard (dict family, arrays, user classes, sharing) is correspondence-only: the model's normalised schema AND its predicted loaded value -- including the "
               "predicted corruption or exception class -- are compared with /repo on >= 340 generated values per run, and c04_ok => faithful-or-refuses is evaluated per case; dump purity by fingerprint before/after."),
-        note=("Trusted: harness/pval_emit.py (object -> pval term), absval/canon, numpy/scipy/json float codecs as opaque tokens, zipfile. D07 (bool keys) and D25 (defaultdict keys) repaired in /repo."),
+        note=("Trusted: harness/pval_emit.py (object -> pval term), absval/canon, numpy/scipy/json float codecs as opaque tokens, zipfile. D07 (bool keys), D25 (defaultdict keys) C04-F2 (defaultdict subclasses) and C04-F3 (tuple subclasses) repaired in /repo."),
         ref="DESIGN.md section 4 C04"),
     "C05": dict(
-        technique="Coq round-trip theorem at the real entry points (dict family, arbitrary sharing) + per-case vm_compute of the model round trip + implementation cycles",
-        text=("coq/props/C05.v: C05_roundtrip_partial -- for every value in the fragment `c05_guard` (scalars; nested list/tuple/set; dict / OrderedDict / defaultdict with str/int/float/numpy-number keys "
-              "without JSON-spelling collisions, including the key_types lists; slices; function and type names; attrgetter/itemgetter) with ANY sharing of sub-objects (a DAG; premise: one label denotes one object), "
-              "roundtrip = loads_model (dumps_model v) = Ok v, i.e. the same value with the same identity labels and sharing; proved through the memo first-occurrence invariant for trees get_tree builds from states "
-              "get_state emits, at the root entry points incl. the protocol/_skops_version fields; C05_stable_partial for k cycles; totality of dumps on the fragment. Not yet in the theorem (correspondence-only): "
-              "member-bearing leaves (bytes, arrays, sparse, dtype, RNGs, masked arrays), partial, object arrays. Full grammar: per generated value `supported v` and 'model loads(dumps(v)) has the abstraction of v' are "
-              "evaluated by vm_compute, and the model's schema/value are compared with /repo; k-fold dump/load cycles and RNG stream continuation run on the implementation."),
-        note=("Trusted: harness/pval_emit.py (object -> pval term), absval/canon; floats identified with their repr text; numpy/scipy codecs opaque tokens. About half of the generated quick cases lie in the proved fragment."),
+        technique='Coq round-trip theorem at the real entry points (containers, dict family, arrays, sparse, dtype, masked, RNGs, partial; arbitrary sharing) + per-case vm_compute of the model round trip + implementation cycles',
+        text=("coq/props/C05.v: C05_roundtrip_partial -- for every value in the fragment `c05_guard` (JSON scalars surviving the text codec; nested list/tuple/set; dict / OrderedDict / defaultdict with str/int/float/numpy-number keys without JSON-spelling collisions, including the key_types lists; slices; function and type names; attrgetter/itemgetter; numpy arrays and numpy scalars (opaque token in an <id>.npy member), scipy sparse matrices (<id>.npz), dtypes, masked arrays, RandomState, Generator, functools.partial) with ANY sharing of sub-objects (a DAG; premise: one label denotes one object; a shared array is written once and referenced from every occurrence), roundtrip = loads_model (dumps_model v) = Ok v, i.e. the same value with the same identity labels and sharing; proved through the memo first-occurrence invariant for trees get_tree builds from states get_state emits, at the root entry points incl. the protocol/_skops_version fields; C05_stable_partial for k cycles; totality of dumps on the fragment. Still outside the theorem (correspondence-only): bytes/bytearray (uuid-named members), object arrays, scipy sparse arrays. Full grammar: per generated value `supported v` and 'model loads(dumps(v)) has the abstraction of v' are evaluated by vm_compute, and the model's schema/value are compared with /repo; k-fold dump/load cycles and RNG stream continuation run on the implementation."),
+        note=('Trusted: harness/pval_emit.py (object -> pval term), absval/canon (self-tested each run); floats identified with their repr text; numpy/scipy codecs opaque tokens.'),
         ref="DESIGN.md section 4 C05 / section 10"),
     "C06": dict(
         technique="Coq proof over a heap-walk model with an adversarial address allocator + state and behaviour correspondence under allocator pressure",
@@ -162,12 +152,9 @@ CLAIMED = {
               "C07-F2 (negatively strided components_). Fixed in /repo: CyHalfMultinomialLoss dispatch."),
         ref="DESIGN.md section 4 C07"),
     "C12": dict(
-        technique="Coq proof of schema well-formedness over the dump model + archive/sink/compression checks on the implementation",
-        text=("coq/props/C12.v: C12_schema_wf (induction over pval, guard no_rank0: root carries protocol and version; every loader-child state has __loader__ in the model's loader set, __class__, __module__, __id__), "
-              "C12_flat_names for every value (each member name is flat and of the shape <id>.npy / <id>.npz / u<n>.bin / schema.json; uses injectivity of the decimal rendering of ids), "
-              "C12_loader_registered (per run, vm_compute over the regenerated registry), C12_sink_indep (by construction), C12_members_exact_refuted (finding C12-F1: a member written for a value whose dict key later collides). "
-              "Members-exact, flat member names and sink/compression independence are checked on every real archive: namelist vs schema file refs, regexes, and a 4 sinks x 8 compression configs product compared after id/uuid normalisation."),
-        note=("Trusted: zipfile (container, codecs); harness normaliser. Open: C12-F1."),
+        technique='Coq proofs: schema well-formedness, flat member names, members = file references (induction over the dump model); sink/compression independence as a theorem over the file-operation model with the zip container as read-back oracle, composed with the round trip; archive/sink/compression checks on the implementation',
+        text=("coq/props/C12.v: C12_schema_wf (induction over pval, guard no_rank0: root carries protocol and version; every loader-child state has __loader__ in the model's loader set, __class__, __module__, __id__), C12_flat_names for every value (each member name is flat and of the shape <id>.npy / <id>.npz / u<n>.bin / schema.json; uses injectivity of the decimal rendering of ids), C12_members_exact_partial (members written = file references of the schema, under the no-colliding-keys guard; induction over all kinds) with C12_members_exact_refuted (finding C12-F1), C12_loader_registered (per run), C12_sink_compression_independent (for EVERY value that dumps, every target -- dumps' return value, a path, an open binary file -- and every compression method/level the bytes that reach the target are the one complete buffer and unzip to the same archive; coq/sys/SinkFacts.v over Dump.v), C12_any_sink_loads_equal_partial (composition with C05: that archive loads to the dumped value on the fragment), C12_failing_dump_delivers_nothing. On the implementation: namelist (as a multiset) vs schema file refs, name regexes, and a 4 sinks x 8 compression configs product (incl. members of several hundred kB that compress 1000:1) compared after id/uuid normalisation and loaded back."),
+        note=('Trusted: zipfile (container, codecs) = the read-back oracle hypothesis of the sink theorems; harness normaliser. Open: C12-F1.'),
         ref="DESIGN.md section 4 C12"),
 }
 
